@@ -117,7 +117,7 @@ func c03Step(t *rapid.T) kit.Argv {
 		}
 		return a
 	case 17:
-		return kit.A("DEL", k)
+		return goneStep(t, k)
 	default:
 		return kit.A("EXISTS", k)
 	}
@@ -157,6 +157,10 @@ func c03Gen(t *rapid.T) SeqCase {
 	for i := 0; i < n; i++ {
 		if rapid.IntRange(0, 9).Draw(t, "probe") == 0 {
 			steps = append(steps, c03Probe(t)...)
+			continue
+		}
+		if rapid.IntRange(0, 14).Draw(t, "gone") == 0 {
+			steps = append(steps, afterGone(t, c03Keys, c03Step)...)
 			continue
 		}
 		steps = append(steps, c03Step(t))
